@@ -21,6 +21,6 @@ meta['confirmed'] = {
 meta['detected_by'] = [] if caught == 'none' else caught.split(',')
 if note: meta['note'] = note
 json.dump(meta, open(f'{d}/meta.json', 'w'), indent=1)
-print(name, meta['confirmed'], meta['detected_by'])
+print(name, {k: v for k, v in meta["confirmed"].items() if k != "how"}, meta["detected_by"])
 if os.path.exists(wt):
     subprocess.run(['git', '-C', '/repo', 'worktree', 'remove', '--force', wt])
